@@ -344,6 +344,19 @@ pub fn judge(case: &Case, rep: &Report, stats: &mut Stats) -> Result<(), Fail> {
         stats.count("discarded_persistent_EAGAIN", 1);
         return Ok(());
     }
+    // a NUL byte cannot be part of a name: no raw call exists to compare with. The call
+    // must fail (which check refuses it first is not prescribed) and change nothing --
+    // in particular it must not act on the name truncated at the NUL.
+    if case.op.has_nul() {
+        stats.class("nul-in-argument");
+        if rep.lib.is_ok() {
+            return Err(mk(format!("nul-accepted:{}", case.op.name()), "an argument with an embedded NUL byte was accepted".into()));
+        }
+        if rep.lib_tree != rep.twin_tree {
+            return Err(mk(format!("nul-effect:{}", case.op.name()), "a call with an embedded NUL byte changed the tree".into()));
+        }
+        return Ok(());
+    }
     let agree = match (&rep.lib, &rep.twin) {
         (o, TwinOut::Ok) => o.is_ok(),
         (Out::Err { kind, .. }, TwinOut::Inval) => kind == "inval",
